@@ -105,6 +105,10 @@ def run_case(acc, cseed, spec, stack_holder):
                 bl_ = bl_[:8] + gb.brothers_sharing_hash_prefix(rng)
                 rng.shuffle(bl_)
                 acc.count("brother_lists_with_two_hashes_sharing_their_first_4_bytes")
+            if bl_ and len(bl_) < 10 and rng.random() < 0.05:
+                # the same brother listed twice: a list is a list (the device's business)
+                bl_.insert(rng.randrange(len(bl_) + 1), rng.choice(bl_))
+                acc.count("brother_lists_with_a_repeated_entry")
             brothers.append(bl_)
         else:
             blocks.append(mk([17, 18, 19, 20]))
